@@ -484,6 +484,8 @@ class BaseInput:
             self._loaded_workbook = openpyxl.load_workbook(file)
             loaded_worksheet = self.get_worksheet(self._worksheet_name)
             self._dataframe = self._get_dataframe_from_worksheet(loaded_worksheet, has_column_names)
+            # Empty cells are read as missing values; the other readers turn those into "n/a".
+            self._dataframe = self._dataframe.fillna("n/a")
         except Exception as e:
             raise HedFileError(HedExceptions.INVALID_FILE_FORMAT, f"Failed to load Excel file: {str(e)}", self.name) from e
 
